@@ -24,6 +24,9 @@ type JobDef struct {
 	Args []string // arguments after the binary name
 	Env  []string
 	Bin  string // alternative binary (build variant); "" = this binary
+	// CrashIsViolation: a runtime fatal error of the job (checkptr, bad pointer found by the
+	// collector, segmentation fault) is a violation of the property, not a harness error.
+	CrashIsViolation bool
 }
 
 type propInfo struct {
@@ -156,8 +159,14 @@ func cmdRun(args []string) {
 			}
 			b, rerr := os.ReadFile(out)
 			if rerr != nil {
+				se := stderr.String()
+				if j.CrashIsViolation && errs[i] == "" && (strings.Contains(se, "fatal error") || strings.Contains(se, "checkptr") || strings.Contains(se, "SIGSEGV") || strings.Contains(se, "unexpected signal")) {
+					results[i] = &hist.Result{Universe: j.Name, Property: *prop, Violations: []*hist.Violation{{Property: *prop, Universe: j.Name, Tier: *tier, Tags: []string{"crash"},
+						What: "the job process died with a runtime fatal error while exploring " + j.Name, Expected: "no pointer-validity or memory fault", Observed: strings.TrimSpace(firstLines(se, 12))}}}
+					return
+				}
 				if errs[i] == "" {
-					errs[i] = "no report: " + strings.TrimSpace(lastLines(stderr.String(), 15))
+					errs[i] = "no report: " + strings.TrimSpace(lastLines(se, 15))
 				}
 				return
 			}
@@ -345,6 +354,14 @@ func trunc(s string, n int) string {
 		return s[:n] + "…"
 	}
 	return s
+}
+
+func firstLines(s string, n int) string {
+	l := strings.Split(strings.TrimSpace(s), "\n")
+	if len(l) > n {
+		l = l[:n]
+	}
+	return strings.Join(l, "\n")
 }
 
 func lastLines(s string, n int) string {
